@@ -361,7 +361,7 @@ func baseAssumptions(eng *Engine) []string {
 		"a callee's assigns clause is assumed at its call sites; it is checked (FRAME) where the callee is listed under C07, C11 or C18 or says assigns \\nothing, and is an unchecked assumption for the remaining contracts",
 		"in a function whose contract says assigns \\nothing, objects that existed at entry are read in their entry state; this rests on the function's FRAME obligations (counted in this run unless C07/C11/C18 lists the function)",
 		"zero-length allocations get distinct references in the model (Go may share them); no obligation depends on writing through such an array",
-		"set views (elems, fieldset, imageset) are uninterpreted functions constrained by sound instances of their inductive definition; no inverse-membership axiom is assumed",
+		"set views (elems, fieldset, imageset) are uninterpreted functions constrained by sound instances of their inductive definition (including: a member of elems(s) contributes its field to fieldset(s, f)); inverse membership (a member sits at some index) is instantiated only for the appended row of a slice append, nowhere else",
 		"shadow functions are defined only at the arguments where the real body was evaluated (state-independent functions, checked syntactically)",
 		"READS obligations are decided on the SSA of the function body (a load of the field exists), not by SMT",
 		"existence in the model of third-party results: decoders and encoders return arbitrary well-typed values and are assumed total",
